@@ -245,9 +245,10 @@ class EqualMassPhaseSpaceFactor(sp.Expr):
 
 
 def _analytic_continuation(rho, s, s_threshold) -> sp.Piecewise:
+    abs_rho = sp.Abs(rho)  # rho is imaginary for s < 0, because of sqrt(s)
     return sp.Piecewise(
         (
-            sp.I * rho / sp.pi * sp.log(sp.Abs((1 + rho) / (1 - rho))),
+            sp.I * abs_rho / sp.pi * sp.log(sp.Abs((1 + abs_rho) / (1 - abs_rho))),
             s < 0,
         ),
         (
